@@ -17,7 +17,7 @@ var bodyTemplates = [][]string{
 	// 0 paragraphs
 	{"{w} {w} {w}", "{w} {w}\n{w} {w}", "{w}\n{w}\n{w}", "{w} {w}  ", "  {w} {w}", "{w}\n   {w}", "{w}\n      {w}", "{w}\n\t{w}"},
 	// 1 ATX
-	{"# {w}", "## {w} ##", "# <b>", "# {w} <b>", "### {w} *{w}*", "#", "# {w}\\#", "### {w} #", "# {w}#", "# {w} #  ", "###### {w}", "####### {w}", "#\t{w}", "# {w}\\ #", "## `{w}`", "# [{w}](/u)", "# {w} \\", "#  ", "# #", "## ##", "# {w} # #"},
+	{"# {w}", "## {w} ##", "# <b>", "# {w} <b>", "### {w} *{w}*", "#", "# {w}\\#", "### {w} #", "# {w}#", "# {w} #  ", "###### {w}", "####### {w}", "#\t{w}", "# {w}\\ #", "## `{w}`", "# [{w}](/u)", "# {w} \\", "#  ", "# #", "## ##", "# {w} # #", "# 1. {w}", "## 2) {w}", "###### 123456789. {w}", "# 7\\. {w}", "# 42"},
 	// 2 setext
 	{"{w}\n===", "{w} {w}\n---", "{w}\n{w}\n=", "{w}\n  ==  ", "*{w}\n{w}*\n---", "{w}  \n{w}\n===", "{w}\\\n---", "[{w}]: /u\n===", "[{w}]: /u\n{w}\n---", "{w}\n- \n---", "`{w}\n{w}`\n==="},
 	// 3 fenced
